@@ -146,7 +146,7 @@ def check(ctx, tier):
     oi = OptionInfluence(ctx, idx, "disable_endpoint_cache", [g.var(init, "disable_endpoint_cache")])
     for ff, owner, test, eff in oi.sites:
         bad = sorted({(k, d, fn) for k, d, fn in eff})
-        obs.append(Ob("D-b", "R-EFFECT", "R-EFFECT|disable_endpoint_cache|%s|%s" % (ff.short, norm(test)[:50]), ff.loc(test), not bad,
+        obs.append(Ob("D-b", "R-EFFECT", "R-EFFECT|disable_endpoint_cache|%s|%s" % (ff.short, ff.key(test)[:50]), ff.loc(test), not bad,
                       "the cache flag chooses between remote and cached access only" if not bad else
                       "the cache flag controls `%s` in %s whose arms differ in %s" % (norm(test)[:40], ff.short, bad[:3])))
     obs += ctx.attempt(replay_order, ctx, "D-b", default=[])
